@@ -9,6 +9,14 @@ sys.path.insert(0, os.path.dirname(os.path.abspath(__file__)))
 
 GEN = ['gen_log2.json', 'gen_segments.json', 'gen_multihash_ops.json']
 VARIANTS = [0, 1, 2, 3]
+
+
+def variants(ctx):
+    """quick tier: the two default-traits builds that between them cover static / dynamic column lists and keepRowNumber off / on
+    (0 and 3); the custom-traits builds (selectEqualityMaxCount 1 / 2, pool block counts, checkVersion off) are thorough-only -
+    cold quick time on a loaded machine (robustness round)"""
+    return VARIANTS if ctx.tier == 'thorough' else [0, 3]
+
 UNIQ_MENU = [[0], [0, 3], [1, 2]]          # (id) (id,c) (a,b)
 MULTI_MENU = [[2], [3], [2, 3], [1, 2]]    # (b) (c) (b,c) (a,b)
 PREDS = ['T', 'E 1 0', 'E 2 3', 'L 0 20', 'N E 3 2', '& L 1 2 N E 2 0', 'L 2 3', 'E 3 7', 'N L 0 5']
@@ -293,11 +301,11 @@ def build_harnesses(ctx):
     the shared machine and add no configuration the other three do not cover."""
     import concurrent.futures as cf
     thorough = ctx.tier == 'thorough'
-    jobs = [('harness.cpp', 'harness%d' % v, ['-DVARIANT=%d' % v], thorough and v in (1, 2)) for v in VARIANTS]
+    jobs = [('harness.cpp', 'harness%d' % v, ['-DVARIANT=%d' % v], thorough and v in (1, 2)) for v in variants(ctx)]
     jobs.append(('harness_idx.cpp', 'harness_idx', [], thorough))
     res = {}; todo = []
     for (src, exe, flags, san) in jobs:
-        fl = list(flags) + (['-g0'] if san else [])
+        fl = list(flags) + ['-g0']      # no debug info: a third of the compile time, the harnesses report by message not by backtrace
         key = source_key(ctx, src, (fl, san)); out = os.path.join(ctx.build, exe + ('.san' if san else '')); kf = out + '.key'
         if os.path.exists(out) and os.path.exists(kf) and open(kf).read() == key:
             res[exe] = out
@@ -359,8 +367,14 @@ def run(ctx):
         if os.path.exists(gpath): os.remove(gpath)       # a stale model must not keep the proofs green
         ctx.tie_obligations.append({'name': 'translate Gen_Protocol', 'ok': False, 'error': str(e)[:500]})
         ctx.stage('regen-protocol', False, str(e)[:2000])
+    # the harness TUs are compiled WHILE the proofs are checked (independent work; cold quick time)
+    import threading
+    hb = {}
+    th = threading.Thread(target=lambda: hb.update(exes=build_harnesses(ctx)))
+    th.start()
     ctx.prove()
-    exes = build_harnesses(ctx)
+    th.join()
+    exes = hb.get('exes') or {}
     missing = [k for k, v in exes.items() if v is None]
     if missing:
         ctx.stage('build-harness', False, 'does not compile: %s\n%s' % (missing, getattr(ctx, 'last_cxx_error', '')))
@@ -379,12 +393,13 @@ def run(ctx):
         rcm, model_lines, errm = ctx.run_lines([ctx.model_exe], path)
         if rcm != 0:
             ctx.stage('model-run', False, errm[-500:]); model_lines = None
-    for v in VARIANTS:
+    for v in variants(ctx):
         exe = exes.get('harness%d' % v)
         if exe is None: continue
         lines, err = run_resilient(ctx, exe, tcases, 'table-v%d' % v)
         ctx.evaluations += len(tcases)
         ctx.coverage.setdefault('harness_stats', []).append(err.strip().splitlines()[-1][-900:] if err.strip() else '')
+        ctx.coverage.setdefault('harness_stats_by_variant', {})[v] = ctx.coverage['harness_stats'][-1]
         bad = oracle_scan(ctx, 'harness%d' % v, tcases, lines)
         for b in bad: all_bad.append(('harness%d' % v, exe) + b)
         for c, o in zip(tcases, lines):
@@ -426,7 +441,8 @@ def run(ctx):
     want = {0: 'dynamic=0 keepRowNumber=0 selectEqualityMaxCount=6', 1: 'dynamic=0 keepRowNumber=1 selectEqualityMaxCount=1',
             2: 'dynamic=1 keepRowNumber=0 selectEqualityMaxCount=2 checkVersion=0', 3: 'dynamic=1 keepRowNumber=1 selectEqualityMaxCount=6'}
     stats = ctx.coverage.get('harness_stats', [])
-    cfg_bad = [v for v in VARIANTS if v < len(stats) and want[v] not in stats[v]]
+    byv = ctx.coverage.get('harness_stats_by_variant', {})
+    cfg_bad = [v for v in variants(ctx) if v in byv and want[v] not in byv[v]]
     idx_stats = ctx.coverage.get('harness_idx_stats', '')
     if exes.get('harness_idx') is not None and 'BucketOpen2N2' not in idx_stats: cfg_bad.append('harness_idx bucket class: ' + idx_stats[-200:])
     ctx.stage('configurations', not cfg_bad, 'unexpected configuration: %s' % cfg_bad if cfg_bad else '')
